@@ -20,6 +20,7 @@ from .. import build, gen
 from . import common as K
 
 ID = "C14"
+REACH_TARGETS = [('ui.Model.__init__', 'formak.ui_model:Model.__init__'), ('common.model_validation', 'formak.common:model_validation'), ('cpp.ExtendedKalmanFilter.__init__', 'formak.cpp:ExtendedKalmanFilter.__init__'), ('cpp.Model.__init__', 'formak.cpp:Model.__init__')]
 LEVEL = "fault_enumeration"
 RULE = ("valid definitions (1-3 states, 1-3 controls, 1-3 calibrations, 1-2 sensors x 1-3 readings, all container "
         "kinds) x every single fault of the classes {set overlap x3, update missing/extra/for-non-state, calibration "
